@@ -193,6 +193,7 @@ struct Ref
   Vec eff, reltol;          // reference efficiency per bin and relative tolerance of undo(1) against it
   std::vector<char> known;  // 1: independent reference value; 0: none (tie-screened attenuation bin, geo/block components)
   int leaves = 0;
+  size_t atten_bins = 0, atten_bins_screened = 0; // attenuation members: bins and bins on ray tracing ties (no independent reference)
   bool atten = false, nonunit = false;
   std::string sig;          // class signature for violation keys
   std::vector<std::string> kinds;
@@ -301,6 +302,8 @@ inline BuiltNorm build_leaf(World& w, char kind, const std::string& arg)
             o.r.eff[i] = std::exp(-Lb);
             o.r.reltol[i] = std::expm1(tolL) + 8 * EPS;
             o.r.known[i] = !scr[i];
+            ++o.r.atten_bins;
+            if (scr[i]) ++o.r.atten_bins_screened;
           }
         break;
       }
@@ -310,6 +313,21 @@ inline BuiltNorm build_leaf(World& w, char kind, const std::string& arg)
         // n: no component at all, x: all three components with labelling values
         const char v = arg.empty() ? 'e' : arg[0];
         const bool do_eff = v != 'n', do_geo = v == 't' || v == 'x', do_block = do_geo;
+        auto cyl = dynamic_cast<const ProjDataInfoCylindricalNoArcCorr*>(w.b.pdi.get());
+        const bool supported = cyl && w.g.span == 1 && w.g.mash == 1 && !w.tof; // else documented as unsupported: set_up will reject
+        if (do_geo && supported)
+          {
+            // geometric / block factors are stored for crystals in DIFFERENT transaxial blocks only (FanProjData of blocks, indexed
+            // without range check when NDEBUG, even number of blocks asserted): assert-only preconditions, so only use them where they hold
+            const int tb = w.b.sc->get_num_transaxial_crystals_per_block(), nblk = w.b.sc->get_num_transaxial_blocks();
+            if (nblk % 2 != 0 || nblk < 2) return skip("block factors need an even number of transaxial blocks (assert-only precondition)");
+            for (const Bin& q : w.bi->bins)
+              {
+                int d1, r1, d2, r2;
+                cyl->get_det_pair_for_bin(d1, r1, d2, r2, q);
+                if (d1 / tb == d2 / tb) return skip("a bin connects two crystals of the same block: outside the block/geo factor tables (assert-only precondition)");
+              }
+          }
         auto nc = std::make_shared<BinNormalisationPETFromComponents>();
         nc->allocate(w.b.pdi, do_eff, do_geo, do_block);
         const int R = w.b.sc->get_num_rings(), D = w.b.sc->get_num_detectors_per_ring();
@@ -337,24 +355,28 @@ inline BuiltNorm build_leaf(World& w, char kind, const std::string& arg)
         o.r.sig = "components";
         o.r.nonunit = !(v == '1' || v == 't' || v == 'n');
         if (v == 'x') { o.r.known.assign(w.nb, 0); break; }
-        auto cyl = dynamic_cast<const ProjDataInfoCylindricalNoArcCorr*>(w.b.pdi.get());
-        if (!cyl || w.g.span != 1 || w.g.mash != 1 || w.tof) { o.r.known.assign(w.nb, 0); break; } // documented as unsupported: set_up will reject
+        if (!supported) { o.r.known.assign(w.nb, 0); break; }
+        // the class works on a "fan" that is symmetric in the tangential position: for bins outside [-h, h], h = min(max, -min), the
+        // property statement does not say what the efficiency is (STIR gives 0): no independent reference there
+        const int h = std::min(w.b.pdi->get_max_tangential_pos_num(), -w.b.pdi->get_min_tangential_pos_num());
         for (size_t i = 0; i < w.nb; ++i)
           {
             int d1, r1, d2, r2;
             cyl->get_det_pair_for_bin(d1, r1, d2, r2, w.bi->bins[i]);
             o.r.eff[i] = (double)(float)e[r1][d1] * (double)(float)e[r2][d2];
             o.r.reltol[i] = 8 * EPS;
+            if (std::abs(w.bi->bins[i].tangential_pos_num()) > h) o.r.known[i] = 0;
           }
         break;
       }
     case 'W':
       {
-        // 0: calibration factor 1 (not set), no radionuclide; 1: calibration 2, branching ratio 0.5; z: calibration 0.5 and one bin with efficiency 0
+        // 0: calibration factor 1 (not set), no radionuclide; 1: calibration 4, branching ratio 0.5; z: calibration 0.5 and one bin with efficiency 0
+        // (the tables use other permutations of the labelling values than the projection-data factors they are chained with)
         const char v = arg.empty() ? '0' : arg[0];
-        const float calib = v == '0' ? 1.F : v == '1' ? 2.F : 0.5F, br = v == '1' ? 0.5F : -1.F;
+        const float calib = v == '0' ? 1.F : v == '1' ? 4.F : 0.5F, br = v == '1' ? 0.5F : -1.F;
         std::vector<float> u(w.nb);
-        for (size_t i = 0; i < w.nb; ++i) u[i] = factor(i, v == '1' ? 1 : 2);
+        for (size_t i = 0; i < w.nb; ++i) u[i] = factor(w.nb - 1 - i, v == '1' ? 0 : 2);
         if (v == 'z') u[std::min<size_t>(3, w.nb - 1)] = 0.F;
         o.n.reset(new TableNorm(w.bi.get(), u, calib, br));
         for (size_t i = 0; i < w.nb; ++i) o.r.eff[i] = (double)u[i] / ((double)calib * (br > 0 ? br : 1.0));
@@ -392,6 +414,8 @@ inline BuiltNorm build(World& w, const std::string& s, size_t& pos)
           o.r.known[i] = a.r.known[i] && c.r.known[i];
         }
       o.r.leaves = a.r.leaves + c.r.leaves;
+      o.r.atten_bins = a.r.atten_bins + c.r.atten_bins;
+      o.r.atten_bins_screened = a.r.atten_bins_screened + c.r.atten_bins_screened;
       o.r.atten = a.r.atten || c.r.atten;
       o.r.nonunit = a.r.nonunit || c.r.nonunit;
       o.r.sig = "chain(" + a.r.sig + "," + c.r.sig + ")";
